@@ -85,7 +85,7 @@ func init() {
 	reg(&Prop{ID: "C11", Level: "exploration",
 		Quick:    Tier{Cases: 160000, PerJob: 10000, Seconds: 60},
 		Thorough: Tier{Cases: 8000000, PerJob: 100000, Seconds: 1500},
-		Rule:     "one case = chain shape as the CLI builds it (router of 1..3 elements, each a store or a failover group of 2..4, optionally under a cache with or without repair, optionally under a SwapStore with a second chain swapped in by a reconfiguration task) x per-member content per id {has, missing, invalid} x per-member fault schedule {healthy, always failing, failing during calls k..k+j} x 1..4 client tasks issuing 1..8 Get/Has over 2..4 ids under the seeded scheduler; oracle: per operation the member calls made by that task must be exactly the calls the documented policy makes given the observed member outcomes, and the result must be what the policy yields (swap: old chain before, new chain after, exactly one of them when overlapping; old members closed once, after their in-flight requests, never used afterwards); distinct = distinct (shape, clients, trace hash, member-call count); non-trivial = preemption or member fault fired",
+		Rule:     "one case = chain shape as the CLI builds it (router of 1..3 elements, each a store or a failover group of 2..4, optionally under a cache with or without repair, optionally under a SwapStore with a second chain swapped in by a reconfiguration task, or - as the writable chunk server builds it - one writable member under a SwapWriteStore with Get/Has/Store clients) x per-member content per id {has, missing, invalid} x per-member fault schedule {healthy, always failing, failing during calls k..k+j} x 1..4 client tasks issuing 1..8 Get/Has over 2..4 ids under the seeded scheduler; oracle: per operation the member calls made by that task must be exactly the calls the documented policy makes given the observed member outcomes, and the result must be what the policy yields (swap: old chain before, new chain after, exactly one of them when overlapping; old members closed once, after their in-flight requests, never used afterwards); distinct = distinct (shape, clients, trace hash, member-call count); non-trivial = preemption or member fault fired",
 		Assumptions: []string{
 			"which failover member is consulted at each attempt is not predicted (it depends on a shared index); the oracle bounds attempts by the group size and requires success whenever one member never fails",
 			"de-duplication queues in chains are covered by C12, not here",
@@ -127,15 +127,15 @@ func init() {
 		Stub: []string{"scheduler", "fault injector on the stored blob"},
 	})
 	reg(&Prop{ID: "C03", Level: "fault_enumeration",
-		Quick:    Tier{Cases: 12800, PerJob: 800, Seconds: 70},
+		Quick:    Tier{Cases: 8000, PerJob: 500, Seconds: 70},
 		Thorough: Tier{Cases: 160000, PerJob: 2000, Seconds: 1500},
-		Rule:     "one case = backend {LocalStore, RemoteHTTP client -> in-process transport -> HTTPHandler -> LocalStore, casync protocol client <-> ProtocolServer over a pipe (server store configured as `desync pull` does)} x upstream format {compressed, uncompressed} x server compression/verification settings x wrapper stack {none, cache, cache+repair, router, failover group, dedup queue, swap(dedup(cache(router(failover))))} x chunk (1..300 bytes, 1/4 up to 4 KiB); the stored object is then corrupted in every way of the enumeration and fetched through a fresh stack each time: a bit flip in EVERY byte and truncation to EVERY length when the stored object is <= 512 bytes (64 sampled each otherwise), replaced by another valid object / a valid zstd frame of other data / raw bytes / the other format, garbage, junk before or after; plus a corrupted cache entry and one extract or cat pipeline over a poisoned store; oracle: error, or data hashing to the requested ID (pipelines: error or exactly the blob); sub_evaluations = faulted fetches; distinct = distinct (backend, formats, stack, tape); non-trivial = a fault was applied",
+		Rule:     "one case = backend {LocalStore, RemoteHTTP client -> in-process transport -> HTTPHandler -> LocalStore, casync protocol client <-> ProtocolServer over a pipe (server store configured as `desync pull` does), S3Store against an in-harness S3 endpoint on loopback} x upstream format {compressed, uncompressed} x server compression/verification settings x wrapper stack {none, cache, cache+repair, router, failover group, dedup queue, swap(dedup(cache(router(failover))))} x chunk (1..300 bytes, 1/4 up to 4 KiB); the stored object is then corrupted in every way of the enumeration and fetched through a fresh stack each time: a bit flip in EVERY byte and truncation to EVERY length when the stored object is <= 512 bytes (64 sampled each otherwise), replaced by another valid object / a valid zstd frame of other data / raw bytes / the other format, garbage, junk before or after; plus a corrupted cache entry and one extract or cat pipeline over a poisoned store; oracle: error, or data hashing to the requested ID (pipelines: error or exactly the blob); sub_evaluations = faulted fetches; distinct = distinct (backend, formats, stack, tape); non-trivial = a fault was applied",
 		Assumptions: []string{
-			"S3 and SFTP backends are not exercised in this tier (they construct chunks through the same NewChunkFromStorage call; see DESIGN.md)",
+			"the SFTP backend is not exercised (it constructs chunks through the same NewChunkFromStorage call; see DESIGN.md); the S3 endpoint is a minimal path-style server written for the harness, signatures are not checked",
 			"no hop facing the caller has SkipVerify set; server-side stores may (the client hop verifies)",
 		},
-		Real: []string{"NewChunkFromStorage", "Chunk.Data/ID", "LocalStore", "RemoteHTTP", "HTTPHandler", "Protocol", "ProtocolServer", "Cache", "RepairableCache", "StoreRouter", "FailoverGroup", "DedupQueue", "SwapStore", "AssembleFile", "IndexPos"},
-		Stub: []string{"HTTP transport (in-process RoundTripper)", "ssh transport (in-process pipe)", "fault injector on stored objects"},
+		Real: []string{"NewChunkFromStorage", "Chunk.Data/ID", "LocalStore", "RemoteHTTP", "HTTPHandler", "Protocol", "ProtocolServer", "Cache", "RepairableCache", "StoreRouter", "FailoverGroup", "DedupQueue", "SwapStore", "AssembleFile", "IndexPos", "S3Store (minio client)"},
+		Stub: []string{"HTTP transport (in-process RoundTripper)", "ssh transport (in-process pipe)", "S3 endpoint (loopback)", "fault injector on stored objects"},
 	})
 	reg(&Prop{ID: "C14", Level: "exploration",
 		Quick:    Tier{Cases: 48000, PerJob: 3000, Seconds: 70},
@@ -201,7 +201,7 @@ func init() {
 		Rule: "one case = local store directory of 0..40 objects produced by a simulated history: valid chunks in the store's own format, the same chunk in both formats, chunks of the other format only, invalid chunks (bit flip, truncation, other data, emptied), abandoned .tmp-cacnk* files of killed writers, junk files incl. chunk-like names x store mode {compressed, uncompressed} x one of {Prune with reference set none / all / random subset / subset plus absent ids; Verify; Verify with repair, both with n in 1..6 workers sharing one writer under the seeded scheduler}; oracle: expected file set and expected set of reported ids, classified by an independent zstd+SHA validator; distinct = distinct (op, mode, object bucket, tape, trace hash); every case is non-trivial (a populated store)",
 		Assumptions: []string{
 			"the name-filter logic is a pure function of the directory listing (DESIGN.md C16 honest limit); the simulated parts are the store history (killed writers, corruption) and the concurrent Verify workers",
-			"S3 and SFTP prune are not exercised",
+			"SFTP prune is not exercised; S3 prune (1/12 of the cases) runs against a minimal in-harness S3 endpoint",
 		},
 		Real: []string{"LocalStore.Prune", "LocalStore.Verify", "LocalStore.RemoveChunk", "LocalStore.GetChunk"},
 		Stub: []string{"scheduler", "store-history generator"},
